@@ -27,6 +27,11 @@ def dterm(ip, st, v):
             m = "(store %s %s (some %s))" % (m, ip.reg.key(k).s, dterm(ip, st, x).s)
         ip.reg.need_val()
         return T("(D %s)" % m, "Val")
+    if isinstance(v, Ref) and ip.c is not None and ip.c.ghost.get("dict_objects"):
+        from . import dictobj          # a python list of strings as a context value (pyvc/dictobj.py)
+        lv = dictobj.list_value(ip, st, v)
+        if lv is not None:
+            return lv
     return scalar(ip, st, v)
 
 
@@ -53,7 +58,14 @@ def scalar(ip, st, v):
         key, truthy = "num:%d" % k, k != 0
     elif isinstance(v, Opaque) and v.sort == "Key":
         f = reg.ufun("key_as_val", ["Key"], "Val")
+        if ip.c is not None and ip.c.ghost.get("str_instances"):
+            from . import dictobj
+            dictobj.embed_instance(ip, st, v.t)
         return T("(%s %s)" % (f, v.t.s), "Val")
+    elif type(v).__name__ == "Sentinel" and v.name.startswith("anon"):
+        # a local sentinel object (`_s = object()`) used as a default value: one more scalar, different from every
+        # constant (that a context might hold an equal value only adds behaviours)
+        key, truthy = "sentinel:" + v.name, True
     else:
         raise U("value %r stored into a context dictionary" % (v,))
     tab = getattr(reg, "_scalars", None)
@@ -297,6 +309,9 @@ def val_store(ip, s, base, idx, v):
     cur = ip.deref(s, base)
     need_dict(ip, s, cur, "item-store")
     k = ip.key_term(as_key(ip, s, idx))
+    if ip.c is not None and ip.c.ghost.get("dict_objects") and not ip.spec_mode:
+        from . import dictobj          # dictionaries as objects: links of the replaced / the stored object (pyvc/dictobj.py)
+        dictobj.store_hook(ip, s, base, k, v)
     new = T("(D (store (dm %s) %s (some %s)))" % (cur.s, k.s, dterm(ip, s, v).s), "Val")
     note_store(ip, s, base, v)
     if not base.path and base.cid in s.notes.get("iterating", ()):
@@ -326,13 +341,50 @@ def val_delete(ip, s, base, idx):
         else:
             ip.emit("safety", "del-key-present", s, has)
         s.assume(has)
+    _dobj_cut(ip, s, base, k)
     ip.store(s, base, T("(D (store (dm %s) %s none))" % (cur.s, k.s), "Val"))
     return [s]
+
+
+def _dobj_cut(ip, s, base, k):
+    """dictionaries as objects (opt-in, pyvc/dictobj.py): the binding of key k (None: all keys; "?": unknown keys) of the
+    dictionary object `base` is removed / replaced"""
+    if not (ip.c is not None and ip.c.ghost.get("dict_objects")) or ip.spec_mode or not isinstance(base, Ref):
+        return
+    from . import dictobj
+    if base.path:
+        if dictobj.get(s).involved(base.cid):
+            raise U("change through a position reference of a dictionary object with tracked aliases")
+        return
+    if dictobj.is_frozen(s, base.cid):
+        raise U("change of a dictionary object whose aliases are not tracked any more (frozen)")
+    if k == "?":
+        k = T("unknown-key%d" % next(ip.bound), "Key")
+    dictobj.cut_children(ip, s, base.cid, k)
 
 
 # --------------------------------------------------------------------------- methods
 def val_method(ip, st, recv, name, pos, kws):
     t = dterm(ip, st, recv)
+    if name in ("append", "extend") and ip.c is not None and ip.c.ghost.get("dict_objects"):
+        from . import dictobj          # a list of strings that lives inside a context dictionary (pyvc/dictobj.py)
+        return dictobj.list_method(ip, st, recv, name, pos, kws)
+    if name == "get" and isinstance(recv, Ref) and not recv.path and not ip.spec_mode and ip.c is not None \
+            and ip.c.ghost.get("dict_objects"):
+        # dictionaries as objects: d.get(k) hands out the OBJECT stored under k (or the default / None)
+        from . import dictobj
+        need_dict(ip, st, t, "get")
+        k = ip.key_term(pos[0])
+        has = T("(vhas %s %s)" % (t.s, k.s), "Bool")
+        if ip.known(st, has) or any(p == recv.cid and key.s == k.s and status == "live"
+                                    for c, p, key, status in dictobj.get(st).links):
+            # (a live link: the object was found, or stored, under this key and the binding has not been replaced since)
+            return [(st, dictobj.child_ref(ip, st, recv, k))]
+        if ip.known(st, NOT(has)):
+            return [(st, pos[1] if len(pos) > 1 else NONE)]
+        a = st.fork(has, "g.")
+        b = st.fork(NOT(has), "d.")
+        return [(a, dictobj.child_ref(ip, a, recv, k)), (b, pos[1] if len(pos) > 1 else NONE)]
     if name == "get":
         need_dict(ip, st, t, "get")
         k = ip.key_term(pos[0])
@@ -357,6 +409,7 @@ def val_method(ip, st, recv, name, pos, kws):
         return [(st, Fun("dictview", recv=recv, name=name))]
     if name == "clear" and isinstance(recv, Ref) and not pos:
         need_dict(ip, st, t, "clear")
+        _dobj_cut(ip, st, recv, None)
         ip.store(st, recv, T("(D emptymap)", "Val"))
         return [(st, NONE)]
     if name == "copy":
@@ -370,6 +423,7 @@ def val_method(ip, st, recv, name, pos, kws):
         removed = T("(D (store (dm %s) %s none))" % (t.s, k.s), "Val")
         outs = []
         a = st.fork(has, "p.")
+        _dobj_cut(ip, a, recv, k)
         ip.store(a, recv, removed)
         outs.append((a, got))
         b = st.fork(NOT(has), "q.")
@@ -380,6 +434,14 @@ def val_method(ip, st, recv, name, pos, kws):
         else:
             ip.emit("safety", "pop-key-present", b, FALSE)
         return outs
+    if name == "update" and isinstance(recv, Ref) and (not pos or (len(pos) == 1 and isinstance(pos[0], Ref) and
+                                                                 isinstance(st.heap[pos[0].cid], PyDictCell))):
+        # d.update(k1=v1, ...) / d.update(<dictionary with concrete string keys>): successive item stores (in order)
+        need_dict(ip, st, t, "update")
+        items = list(st.heap[pos[0].cid].items.items()) if pos else []
+        for k2, v2 in items + list(kws.items()):
+            val_store(ip, st, recv, Str(k2), v2)
+        return [(st, NONE)]
     if name == "update" and isinstance(recv, Ref) and isinstance(pos[0], Ref) \
             and type(st.heap[pos[0].cid]).__name__ == "PyListCell" \
             and all(isinstance(x, Tup) and len(x.items) == 2 for x in st.heap[pos[0].cid].items):
@@ -391,6 +453,10 @@ def val_method(ip, st, recv, name, pos, kws):
     if name == "update" and isinstance(recv, Ref):
         need_dict(ip, st, t, "update")
         note_store(ip, st, recv, pos[0])
+        _dobj_cut(ip, st, recv, "?")
+        if isinstance(pos[0], Ref) and ip.c is not None and ip.c.ghost.get("dict_objects") and not ip.spec_mode:
+            from . import dictobj      # the items of the argument are shared with the receiver from now on
+            dictobj.shared_items(ip, st, recv, pos[0])
         o = dterm(ip, st, pos[0])
         need_dict(ip, st, o, "update-arg")
         f = ip.reg.ufun("dict_update", ["Val", "Val"], "Val")
@@ -472,6 +538,8 @@ def for_dict(ip, s, st, itv, k, spec, mode=None):
     outs = []
     # ---- one iteration
     b = h.fork(None, "V.")
+    from . import dictobj
+    dictobj.enter_body(ip, b)
     if mutated:
         b.notes["iterating"] = set(b.notes.get("iterating", ())) | {itv.cid}
     key = reg.new("key", "Key")
@@ -490,6 +558,7 @@ def for_dict(ip, s, st, itv, k, spec, mode=None):
                 s4.env["$seen"] = Opaque(T("(store %s %s true)" % (seen.s, key.s), SEEN))
                 check_invariants(ip, k, spec, s4, "preserve")
             elif kind == "break":
+                dictobj.leave_body(ip, s4)
                 s4.trace += "B."
                 if mutated:
                     s4.notes["iterating"] = set(s4.notes.get("iterating", ())) - {itv.cid}
